@@ -199,7 +199,16 @@ CacheClear ==
   /\ ev' = [op |-> "cache_clear", inflight |-> \E k \in Iters : Active(k)]
   /\ UNCHANGED <<kvars, tids, pidsReused, obj, nextObj, it, first>>
 
-\* is_running() on any object ever yielded (the user may hold them all)
+\* psutil.Process(p) built by the user: an object the cache knows nothing about
+NewObj(p) ==
+  /\ first = 0 /\ Live(p) /\ nextObj <= MaxObj
+  /\ obj' = [obj EXCEPT ![nextObj] = [pid |-> p, forInc |-> table[p].inc, start |-> table[p].start,
+                                     gone |-> FALSE, reused |-> FALSE]]
+  /\ nextObj' = nextObj + 1
+  /\ ev' = [op |-> "new", pid |-> p, o |-> nextObj]
+  /\ UNCHANGED <<kvars, tids, gpmap, pidsReused, it, cur, dirty, first>>
+
+\* is_running() on any object ever yielded or built (the user may hold them all)
 IsRunning(o) ==
   /\ o < nextObj /\ first = 0
   /\ LET ob == obj[o]  p == ob.pid IN
@@ -227,6 +236,7 @@ Next == \/ \E p \in Pids : Spawn(p) \/ Exit(p) \/ Reap(p)
         \/ \E n \in Pids \cup Tids \cup Probe : PidExists(n)
         \/ \E k \in Iters : IterStart(k) \/ IterStep(k) \/ IterFinish(k) \/ IterClose(k)
         \/ CacheClear
+        \/ \E p \in Pids : NewObj(p)
         \/ \E o \in 1..MaxObj : IsRunning(o)
 
 Spec == Init /\ [][Next]_vars
